@@ -84,26 +84,32 @@ type PathSample struct {
 
 // Path is the state of one execution.
 type Path struct {
-	w          *Worker
-	f          *TermFactory
-	prefix     []Decision
-	decisions  []Decision
-	pc         []*Term
-	model      map[string]uint64
-	modelValid bool
-	domains    map[string]*dom
-	entangled  map[string]bool
-	inputs     []*Term // declared symbolic inputs in order
-	inputSet   map[string]*Term
-	choices    map[string]uint64
-	observed   []string
-	reached    map[string]bool
-	steps      int64
-	tokens     int
-	fresh      int
-	forked     int
-	opaqueHit  bool
-	known      map[uint32]bool
+	w           *Worker
+	f           *TermFactory
+	prefix      []Decision
+	decisions   []Decision
+	pc          []*Term
+	model       map[string]uint64
+	modelValid  bool
+	domains     map[string]*dom
+	entangled   map[string]bool
+	inputs      []*Term // declared symbolic inputs in order
+	inputSet    map[string]*Term
+	choices     map[string]uint64
+	observed    []string
+	reached     map[string]bool
+	steps       int64
+	tokens      int
+	fresh       int
+	forked      int
+	opaqueHit   bool
+	known       map[uint32]bool
+	observedRaw []observedVal
+}
+
+type observedVal struct {
+	label string
+	v     value
 }
 
 type Stats struct {
